@@ -130,6 +130,9 @@ def spec_check(lines):
 
 
 def judge(case, impl, model):
+    if any(l.startswith('PANIC') for l in (impl or [])) and not any(l.startswith('PANIC') for l in (model or [])):
+        return 'implementation panics (%s) where the model, proved never to crash on any history, does not' % \
+            [l for l in impl if l.startswith('PANIC')][0]
     dev = spec_check(impl or [])
     if dev:
         return 'implementation deviates from the frame schedule of the statement (LcdSpec closed form): ' + dev
